@@ -59,11 +59,22 @@ def gen_line(rng) -> str:
     for _ in range(rng.randint(0, 2)):
         i = rng.randrange(n)
         steps.append(f"S|{fields[i].split('|')[1]}|{vals[i]}")
-    return "PYD\t" + ("va=1" if va else "va=0") + "\t" + "\t".join(steps)
+    cfg = ("va=1" if va else "va=0") + (",ctx=1" if rng.random() < 0.3 else "")
+    return "PYD\t" + cfg + "\t" + "\t".join(steps)
+
+
+NP_SCALARS = ["float16", "float32", "float64", "int8", "int32", "int64", "uint8", "uint16", "bool"]
 
 
 def cases(tier, rng, run):
     out = [Case(l, "corpus") for l in run.corpus_lines()]
+    # class-definition-time cross-check, exhaustive: every exported class x declared numpy scalar type
+    import translate
+
+    for c in translate.CLASSES:
+        for dt in NP_SCALARS:
+            for base in ("npt", "nd"):
+                out.append(Case(f"PYD\tva=0\tF|x|{base}=0:{dt}|{c},0,a b", "classdef", {"cls": c, "dt": dt}))
     for _ in range(2500 if tier == "quick" else 40000):
         out.append(Case(gen_line(rng), "gen"))
     return out
@@ -71,6 +82,15 @@ def cases(tier, rng, run):
 
 def judge(case, impl_out, spec):
     """spec-level expectations that do not need the model: clean public data; conforming assignment succeeds"""
+    if case.tag == "classdef":
+        from checks import ctxcommon
+
+        ok = ctxcommon.accepts()(case.meta["cls"], "0:" + case.meta["dt"])
+        if ok and impl_out.startswith("classdef"):
+            return f"a numpy array type whose declared scalar type {case.meta['dt']} the class accepts is refused at class definition: {impl_out}"
+        if not ok and not impl_out.startswith("classdef reject dtype"):
+            return f"a numpy array type whose declared scalar type {case.meta['dt']} contradicts {case.meta['cls']} is not refused with the dtype error at class definition: {impl_out!r}"
+        return None
     parts = impl_out.split(" ## ")
     for p in parts:
         if p.startswith("ok clean=0"):
@@ -104,3 +124,63 @@ def known_region(case, impl_out, model_out, spec):
     if "va=1" in case.line.split("\t")[1] and "\tS|" in case.line:
         return "F13"
     return None
+
+
+def custom(run, tier):
+    """Nothing is shared between validations: nested models, repeated `model_validate`, and a caller-supplied
+    validation-context dict (pydantic's `context=`) reused across validations and visible to nested models."""
+    import typing
+    import warnings
+
+    import numpy as np
+    import pydantic
+
+    import impl
+    from framework import Finding
+
+    dltype = impl.dltype
+    HW = typing.Annotated[np.ndarray, dltype.FloatTensor["h w"]]
+
+    class Inner(pydantic.BaseModel):
+        a: HW
+        b: HW
+
+    class Outer(pydantic.BaseModel):
+        inner: Inner
+        thumb: HW
+        other: Inner
+
+    def z(*s):
+        return np.zeros(s, np.float32)
+
+    n = 0
+    shared = {"caller": "data"}
+    for ctx_kw in ({}, {"context": shared}, {"context": {}}):
+        for hi, ho, h2 in ((4, 2, 3), (2, 2, 2), (1, 5, 4)):
+            for bad in (None, "inner", "thumb", "other"):
+                data = {"inner": {"a": z(hi, 6), "b": z(hi + (1 if bad == "inner" else 0), 6)}, "thumb": z(ho, 3) if bad != "thumb" else z(ho, 3, 1),
+                        "other": {"a": z(h2, 1), "b": z(h2, 1 + (1 if bad == "other" else 0))}}
+                for rep in range(2):
+                    with warnings.catch_warnings():
+                        warnings.simplefilter("ignore")
+                        try:
+                            m = Outer.model_validate(data, **ctx_kw)
+                            got = "ok" if list(m.model_dump().keys()) == ["inner", "thumb", "other"] and "__dltype__" not in repr(m) else "ok-unclean"
+                        except dltype.DLTypeError as e:
+                            got = "rejected " + type(e).__name__
+                        except Exception as e:  # noqa: BLE001
+                            got = "pyexc " + type(e).__name__
+                    want = "ok" if bad is None else "rejected"
+                    n += 1
+                    line = f"NESTED\tcontext={'none' if not ctx_kw else ('shared-dict' if ctx_kw['context'] is shared else 'fresh-dict')}\tinner h={hi} thumb h={ho} other h={h2}\tfault={bad}\trepeat={rep}"
+                    if not got.startswith(want) or got == "ok-unclean":
+                        run.findings.append(Finding("failing-input", "nested / repeated validation: every model validation has its own context (the three models bind h, w independently); "
+                                                    f"expected {want}, got {got}", Case(line, "nested"), got, "", want))
+                    if n % 11 == 0 and len(run.samples) < 12:
+                        run.samples.append({"op": line, "impl": got, "tag": "nested"})
+    if shared != {"caller": "data"}:
+        run.findings.append(Finding("failing-input", f"the caller's validation-context dict was modified by validation: {sorted(shared)}", Case("NESTED\tcontext=shared-dict", "nested"), str(sorted(shared)), "", "['caller']"))
+    run.n_cases += n
+    run.n_distinct_nontrivial += n // 2
+    run.dist["nested"] += n
+    run.coverage["nested_validations"] = n
